@@ -125,43 +125,84 @@ class Oracle:
         return sorted(forms)
 
     def recount(self, out, ordered=None):
-        """Oracle count vector of a returned solution; (None, reason) if invalid."""
-        c = self.case
-        m = c.mapping_of(out)
-        if set(m) != set(range(c.O.n)):
-            return None, "not every object node is mapped"
-        for i in c.O.leaves:
-            if m[i] != c.S.by_name[c.leafmap[c.O.name[i]]]:
-                return None, f"leaf {c.O.name[i]} moved to another species"
-        res = RC.evaluate(c.O, c.S, m)
-        if res is None:
-            return None, "an internal node carries an invalid event"
-        cnt, ev, kept = res
-        if ordered is None:
-            return cnt, None
-        syn = c.syn_of(out)
-        if set(syn) != set(range(c.O.n)):
-            return None, "not every object node is labelled"
-        for i in c.O.leaves:
-            if list(syn[i]) != list(c.leafsyn[c.O.name[i]]) and not (
-                not ordered and sorted(syn[i]) == sorted(c.leafsyn[c.O.name[i]])
-            ):
-                return None, f"leaf synteny of {c.O.name[i]} differs from the input"
-        if ordered:
-            fams = set(g for s in c.leafsyn.values() for g in s)
-            if c.O.children[0] and (sorted(syn[0]) != sorted(fams) or len(syn[0]) != len(fams)):
-                return None, "root does not hold every family exactly once"
-            if c.rootsyn is not None and list(syn[0]) != list(c.rootsyn):
-                return None, "root order differs from the prescribed one"
-            n = LB.ordered_sloss(c.O, ev, kept, syn)
-            if n is None:
-                return None, "a child synteny is not a subsequence of its parent's"
-        else:
-            bad = LB.unordered_valid(c.O, c.leafsyn, {i: frozenset(s) for i, s in syn.items()})
-            if bad:
-                return None, bad
-            n = LB.unordered_sloss(c.O, ev, kept, {i: frozenset(s) for i, s in syn.items()})
-        return cnt + (n,), None
+        return recount_case(self.case, out, ordered)
+
+
+def recount_case(c, out, ordered=None):
+    """Oracle count vector of a returned solution w.r.t. case c; (None, reason) if invalid."""
+    m = c.mapping_of(out)
+    if set(m) != set(range(c.O.n)):
+        return None, "not every object node is mapped"
+    for i in c.O.leaves:
+        if m[i] != c.S.by_name[c.leafmap[c.O.name[i]]]:
+            return None, f"leaf {c.O.name[i]} moved to another species"
+    res = RC.evaluate(c.O, c.S, m)
+    if res is None:
+        return None, "an internal node carries an invalid event"
+    cnt, ev, kept = res
+    if ordered is None:
+        return cnt, None
+    syn = c.syn_of(out)
+    if set(syn) != set(range(c.O.n)):
+        return None, "not every object node is labelled"
+    for i in c.O.leaves:
+        if list(syn[i]) != list(c.leafsyn[c.O.name[i]]) and not (
+            not ordered and sorted(syn[i]) == sorted(c.leafsyn[c.O.name[i]])
+        ):
+            return None, f"leaf synteny of {c.O.name[i]} differs from the input"
+    if ordered:
+        fams = set(g for s in c.leafsyn.values() for g in s)
+        if c.O.children[0] and (sorted(syn[0]) != sorted(fams) or len(syn[0]) != len(fams)):
+            return None, "root does not hold every family exactly once"
+        if c.rootsyn is not None and list(syn[0]) != list(c.rootsyn):
+            return None, "root order differs from the prescribed one"
+        n = LB.ordered_sloss(c.O, ev, kept, syn)
+        if n is None:
+            return None, "a child synteny is not a subsequence of its parent's"
+    else:
+        bad = LB.unordered_valid(c.O, c.leafsyn, {i: frozenset(s) for i, s in syn.items()})
+        if bad:
+            return None, bad
+        n = LB.unordered_sloss(c.O, ev, kept, {i: frozenset(s) for i, s in syn.items()})
+    return cnt + (n,), None
+
+
+
+
+def is_binary_tuple(t):
+    return isinstance(t, str) or (len(t) == 2 and all(is_binary_tuple(c) for c in t))
+
+
+def ete_to_tuple(node):
+    """ete3 tree -> (nested tuple, {preorder index: name})."""
+    names = {}
+    counter = [0]
+
+    def rec(n):
+        i = counter[0]
+        counter[0] += 1
+        if n.is_leaf():
+            return n.name
+        names[i] = n.name
+        return tuple(rec(c) for c in n.children)
+
+    t = rec(node)
+    return t, names
+
+
+def case_from_output(out, base_case):
+    """A Case describing the (binary, relabelled) input an output refers to."""
+    ot, on = ete_to_tuple(out.input.object_tree)
+    st, sn = ete_to_tuple(out.input.species_lca.tree)
+    c = H.Case.__new__(H.Case)
+    c.desc = base_case.desc
+    c.ot, c.st = ot, st
+    c.O = H.OTree(ot, "o", names=on)
+    c.S = H.OTree(st, "s", names=sn)
+    c.leafmap = base_case.leafmap
+    c.leafsyn = base_case.leafsyn
+    c.rootsyn = base_case.rootsyn
+    return c
 
 
 def z_of(ctx, x):
